@@ -198,6 +198,9 @@ def build_variant(case, name, info):
 def judge(ob, ov, name, info, mult):
     """list of problems of the transformed observables ov against the base observables ob"""
     probs = []
+    if name == "unimodular-nonreduced":
+        k = diff(ob, ov, [k_ for k_ in ("dipolar", "dipolar_self", "rss", "rss_iso") if k_ in ob])
+        return ["unimodular re-description changes %s: %s -> %s" % (k, str(ob[k])[:150], str(ov[k])[:150])] if k else []
     if mult is None:
         # the sphere selection is centred on atom 0: skip it for permutations (a different atom)
         keys = [k for k in ob if not (name == "permute" and k in ("sphere", "box")) and not (name.startswith("rotate") and k == "box")
@@ -308,28 +311,38 @@ def run(ctx):
     # ---- tight clusters in roomy cells, re-described by unimodular matrices after which the shortest lattice vector is no +-1 combination of the rows:
     #      the couplings of each nucleus with its own nearest copy, the pair couplings and the RSS must not notice
     NONRED = [((1, 1, 0), (1, 2, 0), (0, 0, 1)), ((2, 1, 0), (3, 2, 0), (0, 0, 1)), ((1, 0, 1), (0, 1, 0), (1, 0, 2)), ((1, 2, 0), (1, 3, 0), (0, 0, 1)),
-              ((1, 0, 0), (0, 2, 1), (0, 3, 2)), ((3, 1, 0), (2, 1, 0), (0, 0, 1))]
-    for t_ in range(12 if quick else 150):
-        L = lc.gen_lattice(rng, ["ortho", "sheared"][t_ % 2])
+              ((1, 0, 0), (0, 2, 1), (0, 3, 2)), ((3, 1, 0), (2, 1, 0), (0, 0, 1)), ((1, 0, 0), (0, 1, 0), (5, 0, 1)), ((1, 0, 0), (3, 1, 0), (0, 0, 1)),
+              ((1, 0, 0), (0, 1, 0), (3, 4, 1)), ((1, 4, 0), (0, 1, 0), (0, 0, 1))]
+    BASES = [[[5, 0, 0], [0, 6, 0], [0, 0, 7]], [[3, 0, 0], [0, 3, 0], [0, 0, 20]], [[4, 0, 0], [0, 4, 0], [0, 0, 16]], [[6, 0, 0], [2, 6, 0], [1, 1, 8]],
+             [[3, 0, 0], [0, 5, 0], [0, 0, 17]], [[8, 0, 0], [0, 9, 0], [0, 0, 10]], [[4, 0, 0], [1, 5, 0], [0, 2, 14]]]
+    DIPKEYS = ["dipolar", "dipolar_self", "rss", "rss_iso"]          # small cells are fine for these (no bond / hydrogen-bond thresholds involved)
+    nn_ = 0
+    for L in BASES:
         Lm = np.array(L, float)
-        if abs(np.linalg.det(Lm)) < 100 or lc.brute_min(L, (True, True, True), (0, 0, 0), True) <= 16:
-            continue
-        n = rng.randint(2, 3)
-        p0 = [rng.randint(-3, 3) for _ in range(3)]
-        pos = [tuple(p0)] + [tuple(p0[k] + d_[k] for k in range(3)) for d_ in rng.sample([(1, 0, 0), (0, 1, 0), (0, 0, 1), (1, 1, 0), (0, 1, 1), (-1, 0, 1)], n - 1)]
-        syms = [rng.choice(["H", "H", "C", "N"]) for _ in range(n)]
-        U = np.array(NONRED[t_ % len(NONRED)])
-        case_ = dict(L=[list(r) for r in L], pos=[list(p) for p in pos], syms=syms, transform="unimodular-nonreduced", U=U.tolist())
-        ctx.evaluations += 1
-        try:
-            ob_, ov_ = observables(mk(syms, pos, L)), observables(mk(syms, pos, U @ Lm))
-        except Exception as e:
-            ctx.fail_input("metamorphic", case_, "observables raised %s: %s" % (type(e).__name__, str(e)[:160]), classify)
-            continue
-        k_ = diff(ob_, ov_, [k for k in ob_ if k != "all_finite" and not k.startswith("_")])
-        ctx.seen(("unimodular-nonreduced", t_ % len(NONRED), k_ is None))
-        if k_:
-            ctx.fail_input("metamorphic", case_, "unimodular re-description %s changes %s: %s -> %s" % (U.tolist(), k_, str(ob_[k_])[:150], str(ov_[k_])[:150]), classify)
+        for U_ in (NONRED if not quick else [NONRED[(nn_ + j_) % len(NONRED)] for j_ in range(4)]):
+            nn_ += 1
+            n = rng.randint(2, 3)
+            if nn_ % 2:
+                p0 = [rng.randint(-3, 3) for _ in range(3)]            # a tight cluster
+                pos = [tuple(p0)] + [tuple(p0[k] + d_[k] for k in range(3)) for d_ in rng.sample([(1, 0, 0), (0, 1, 0), (0, 0, 1), (1, 1, 0), (0, 1, 1), (-1, 0, 1)], n - 1)]
+            else:
+                pos = lc.gen_vectors(rng, L, n, far=False)               # atoms spread over the cell
+                if len(set(pos)) < n or any(lc.brute_min(L, (True, True, True), tuple(pos[j][k] - pos[i][k] for k in range(3)), False) == 0
+                                            for i in range(n) for j in range(i + 1, n)):
+                    continue
+            syms = [rng.choice(["H", "H", "C", "N"]) for _ in range(n)]
+            U = np.array(U_)
+            case_ = dict(L=[list(r) for r in L], pos=[list(p) for p in pos], syms=syms, transform="unimodular-nonreduced", U=U.tolist())
+            ctx.evaluations += 1
+            try:
+                ob_, ov_ = observables(mk(syms, pos, L)), observables(mk(syms, pos, U @ Lm))
+            except Exception as e:
+                ctx.fail_input("metamorphic", case_, "observables raised %s: %s" % (type(e).__name__, str(e)[:160]), classify)
+                continue
+            k_ = diff(ob_, ov_, [k for k in DIPKEYS if k in ob_])
+            ctx.seen(("unimodular-nonreduced", tuple(map(tuple, U_)), k_ is None))
+            if k_:
+                ctx.fail_input("metamorphic", case_, "unimodular re-description %s changes %s: %s -> %s" % (U.tolist(), k_, str(ob_[k_])[:150], str(ov_[k_])[:150]), classify)
     # ---- the Coq models of C03/C04 on two representations of the same crystal, against the real API on both
     okm = ctx.build_models(["model/Bonds.vo"])
     exprs, wants, metas = [], [], []
